@@ -161,6 +161,31 @@ pub fn generate(tier: Tier, rng: &mut Rng) -> Vec<Case> {
             out.push(c);
         }
     }
+    // conversions from text on either side of every representation limit
+    let default = CtxSpec::default_ctx();
+    let mut texts: Vec<String> = vec![];
+    for t in super::c15::limit_texts() {
+        texts.push(format!("duration({})", str_literal(&t)));
+        texts.push(format!("timestamp('2000-01-01T00:00:00Z') + duration({})", str_literal(&t)));
+    }
+    for y in ["-262144", "-262143", "-9999", "-0001", "0000", "0001", "9999", "10000", "+10000", "262143", "+262143", "262144", "999999"] {
+        for rest in ["-01-01T00:00:00Z", "-12-31T23:59:59.999999999Z", "-12-31T23:59:60Z", "-02-29T00:00:00+23:59", "-01-01T00:00:00-23:59", "-01-01T00:00:00+24:00"] {
+            texts.push(format!("timestamp('{y}{rest}')"));
+            texts.push(format!("timestamp('{y}{rest}') + duration('1h')"));
+            texts.push(format!("string(timestamp('{y}{rest}'))"));
+        }
+    }
+    for n in ["9223372036854775807", "9223372036854775808", "-9223372036854775808", "-9223372036854775809", "18446744073709551615", "18446744073709551616", "340282366920938463463374607431768211456", "1e308", "1e309", "-1e309", "4.9e-324", "1e-400", "0x10", "+1", "", " 1", "1 ", "١"] {
+        for f in ["int", "uint", "double"] {
+            texts.push(format!("{f}('{n}')"));
+        }
+    }
+    for src in &texts {
+        if let Some(mut c) = eval_case_from_src(&default, src) {
+            c.tags = vec!["limit-text"];
+            out.push(c);
+        }
+    }
     out
 }
 
